@@ -111,3 +111,66 @@ fn k_vertex_declaration_parser_16_concrete() {
     }
     kani::cover!(true, "reachable");
 }
+
+//@use_common
+
+fn nvd_types() -> [VertexType; 14] {
+    [VertexType::Single1, VertexType::Single2, VertexType::Single3, VertexType::Single4, VertexType::Byte4, VertexType::Short2, VertexType::Short4, VertexType::ByteFloat4,
+     VertexType::Short2n, VertexType::Short4n, VertexType::Half2, VertexType::Half4, VertexType::UnsignedShort2, VertexType::UnsignedShort4]
+}
+fn nvd_usages() -> [VertexUsage; 8] {
+    [VertexUsage::Position, VertexUsage::BlendWeights, VertexUsage::BlendIndices, VertexUsage::Normal, VertexUsage::UV, VertexUsage::Tangent, VertexUsage::BiTangent, VertexUsage::Color]
+}
+fn nvd_element(d: usize, i: usize) -> VertexElement {
+    VertexElement { stream: ((d + i) % 3) as u8, offset: ((i * 12 + d) % 250) as u8, vertex_type: nvd_types()[(i + d * 5) % 14], vertex_usage: nvd_usages()[(i * 3 + d) % 8], usage_index: ((i + d) % 4) as u8 }
+}
+
+//@unit props=C06,C07 label=B tier=quick native=1 fn=model_vertex_declarations::{vertex_element_parser,vertex_element_writer} bound="by execution: 1..3 declarations with every element count 1..16 (all 14 vertex types and 8 usages occur), 48 blocks"
+//@desc every declaration occupies 17 slots of 8 bytes: its elements in order (stream, offset, type, usage, usage index, 3 zero bytes), one slot starting with 0xFF, the rest skipped; the parser returns exactly the written elements (all 16 when every slot is used) and consumes 136 bytes per declaration
+#[test]
+fn native_vertex_declarations() {
+    let mut cases = 0u64;
+    for nd in 1..=3usize {
+        for n in 1..=16usize {
+            let decls: Vec<VertexDeclaration> = (0..nd).map(|d| VertexDeclaration { elements: (0..(if d == 0 { n } else { (n + d * 5 - 1) % 16 + 1 })).map(|i| nvd_element(d, i)).collect() }).collect();
+            let mut buf = vec![0u8; 136 * nd];
+            {
+                let mut w = Cursor::new(&mut buf[..]);
+                vertex_element_writer(&decls, &mut w, binrw::Endian::Little, ()).expect("write");
+            }
+            for (d, decl) in decls.iter().enumerate() {
+                for (i, e) in decl.elements.iter().enumerate() {
+                    let s = &buf[136 * d + 8 * i..136 * d + 8 * i + 8];
+                    assert_eq!(s, &[e.stream, e.offset, e.vertex_type as u8, e.vertex_usage as u8, e.usage_index, 0, 0, 0], "slot {i} of declaration {d}");
+                }
+                assert_eq!(buf[136 * d + 8 * decl.elements.len()], 0xFF, "end marker after the last element of declaration {d}");
+            }
+            let mut r = Cursor::new(&buf[..]);
+            let back = vertex_element_parser(&mut r, binrw::Endian::Little, (nd as u16,)).expect("a written block parses");
+            assert_eq!(r.position() as usize, 136 * nd, "136 bytes consumed per declaration");
+            assert_eq!(back.len(), nd);
+            for (d, decl) in decls.iter().enumerate() {
+                assert_eq!(back[d].elements.len(), decl.elements.len(), "element count of declaration {d} ({} written)", decl.elements.len());
+                for (a, b) in decl.elements.iter().zip(back[d].elements.iter()) {
+                    assert!(a.stream == b.stream && a.offset == b.offset && a.vertex_type == b.vertex_type && a.vertex_usage == b.vertex_usage && a.usage_index == b.usage_index, "element read back");
+                }
+            }
+            cases += 1;
+        }
+    }
+    println!("NATIVE native_vertex_declarations cases={cases}");
+}
+
+//@unit props=C18 label=B tier=quick native=1 fn=model_vertex_declarations::vertex_element_parser bound="by execution: a written 2-declaration block (16 and 3 elements) followed by 64 bytes: every truncation and 7 single-byte corruptions per byte, plus blocks with no end marker at all"
+//@desc damaged declaration blocks (missing or moved end markers, undefined type/usage codes, truncation) yield Err or a value, never a panic
+#[test]
+fn native_vertex_declarations_damaged_nopanic() {
+    let decls: Vec<VertexDeclaration> = vec![VertexDeclaration { elements: (0..16).map(|i| nvd_element(0, i)).collect() }, VertexDeclaration { elements: (0..3).map(|i| nvd_element(1, i)).collect() }];
+    let mut buf = vec![0u8; 136 * 2 + 64];
+    { let mut w = Cursor::new(&mut buf[..]); vertex_element_writer(&decls, &mut w, binrw::Endian::Little, ()).expect("write"); }
+    for k in 0..64 { buf[272 + k] = if k % 8 == 0 && k >= 32 { 0xFF } else { 2 }; }
+    let f = |b: &[u8]| { let mut r = Cursor::new(b); let _ = vertex_element_parser(&mut r, binrw::Endian::Little, (2,)); };
+    let mut cases = native_sweep(&buf, 4096, 1, &f);
+    for len in [0usize, 8, 136, 137, 272, 400, 1000] { native_try(&f, &vec![2u8; len], "block without any end marker"); cases += 1; }
+    println!("NATIVE native_vertex_declarations_damaged_nopanic cases={cases}");
+}
